@@ -298,7 +298,9 @@ def zic_postprocessing_mechanism(w, p, prop, zone_info, zsegs):
         inequality around the instant and zic's value equals AceTime's value after T2.
     (B) before a zone's first transition zic uses a 'default type'; when the first era's rules give no standard time
         before their first transition zic takes the first standard type of a LATER era.  Attributed only when zic's
-        offset there is impossible for the first era (STDOFF + any SAVE of its policy)."""
+        offset there is impossible for the first era (STDOFF + any SAVE of its policy), or when every rule of the first
+        era's policy begins after that era's UNTIL year (the era then yields no time type of its own: mutant-7000-612,
+        'Pacific/Guam 10:00 Guam G%sT 2000 Dec 23' with the only Guam rule starting in 2026: zic ChST, AceTime GST)."""
     if w.get("epochSeconds") is None or not w["key"].endswith(("offset-differs", "dst-flag-differs", "abbrev-differs")):
         return w
     t = int(w["epochSeconds"])
@@ -316,7 +318,11 @@ def zic_postprocessing_mechanism(w, p, prop, zone_info, zsegs):
             saves |= {_hms(r[6]) or 0 for r in p["rules"][era0[1]]}
         elif era0 and era0[1] != '-' and _hms(era0[1]) is not None:
             saves = {_hms(era0[1])}
-        if std is not None and zval[0] not in {std + sv for sv in saves}:
+        # ... or every rule of the first era's policy begins after that era has ended: the era then contributes no time type at all
+        no_rule_yet = False
+        if era0 and era0[1] in p["rules"] and len(era0) > 3:
+            no_rule_yet = all(int(r[0]) > int(era0[3]) for r in p["rules"][era0[1]])
+        if std is not None and (zval[0] not in {std + sv for sv in saves} or no_rule_yet):
             w = dict(w)
             w["key"] = prop + ":zic-default-type-before-first-transition-taken-from-later-era"
             w["what"] = "before the zone's first transition zic reports an offset the first era cannot have (its default-type heuristic)"
@@ -429,6 +435,12 @@ def check_program(v, prog_id, p, workdir, scopes=("extended", "basic"), targets=
             r = vlib.run_shards(exe, args, san="rec" if san else None, timeout=3000)
             for w in r.witnesses:
                 w = classify(w)
+                if w["key"].endswith(":transition-pool-high-water") and int(w.get("high_water", 0)) >= 8 and int(w.get("recorded_buf_size", 0)) > 8:
+                    # known mechanism (see known_findings.json): the compiler records a size beyond the processor's fixed pool
+                    w = dict(w)
+                    w["key"] = prop + ":generated-zone-needs-more-transitions-than-the-processor-pool-holds"
+                    w["what"] = ("the compiler emitted a zone whose recorded transition buffer size exceeds ExtendedZoneProcessor's fixed pool "
+                                 "(kMaxTransitions = 8) and the pool filled up")
                 v.violation(w["key"], w["what"] + " (arduino target)", w)
             v.absorb(vlib.ShardResult(), "")   # no-op, keeps interface uniform
             for b in r.san_blocks:
